@@ -305,21 +305,23 @@ def generation_floor_oracle(case, wrapping):
     floors = []          # per world: {arch: (sv, number of slots known to exist at the preset)}
     last = []            # per world: {(arch, key): highest generation returned}
     seen = []            # per world: {arch: 1 + highest slot index seen}
+    aver = []            # per world: {arch: archetype version last seen (`len`), or preset}
     cur = None
     for i, (o, ob) in enumerate(zip(case['ops'], case['obs'])):
         if ob is None:
             break
         k = o[0]
         if k == 'new' and ob and ob[0] == 1:
-            caps.append(list(o[1])); floors.append({}); last.append({}); seen.append({}); cur = len(floors) - 1
+            caps.append(list(o[1])); floors.append({}); last.append({}); seen.append({}); aver.append({}); cur = len(floors) - 1
         elif k == 'clone' and ob and ob[0] == 1 and cur is not None and cur < len(floors):
-            caps.append(list(caps[cur])); floors.append(dict(floors[cur])); last.append(dict(last[cur])); seen.append(dict(seen[cur]))
+            caps.append(list(caps[cur])); floors.append(dict(floors[cur])); last.append(dict(last[cur])); seen.append(dict(seen[cur])); aver.append(dict(aver[cur]))
         elif k == 'switch' and ob and ob[0] == 1:
             cur = o[1]
         elif k == 'preset' and ob and ob[0] == 1 and cur is not None and cur < len(floors):
             a = o[1]
             known = max(caps[cur][a] if a < len(caps[cur]) else 0, seen[cur].get(a, 0))
             floors[cur][a] = (o[2], known)
+            aver[cur][a] = o[3]
             for kk in [kk for kk in last[cur] if kk[0] == a]:
                 del last[cur][kk]      # the hook may also lower generations: what was issued before it says nothing about later creates
         elif k in ('create', 'createw') and ob and ob[0] == 1 and len(ob) == 3 and cur is not None and cur < len(floors):
@@ -333,6 +335,14 @@ def generation_floor_oracle(case, wrapping):
                 return i, 'create returned generation %d for a position that had already issued generation %d' % (ver, lv)
             last[cur][(a, key)] = ver
             seen[cur][a] = max(seen[cur].get(a, 0), slot + 1)
+        elif k == 'len' and ob and len(ob) >= 4 and cur is not None and cur < len(floors):
+            # the archetype version (what direct handles carry): it only ever counts removals upwards; a decrease means it
+            # wrapped, and direct handles of earlier real removals would be accepted again instead of the overflow panic
+            a, av = o[1], ob[3]
+            pv = aver[cur].get(a)
+            if pv is not None and av < pv:
+                return i, ('the archetype version went from %d to %d without wrapping_version: it wrapped silently instead of the documented overflow panic, so direct handles issued %d removals ago are accepted again' % (pv, av, av))
+            aver[cur][a] = av
     return None
 
 
@@ -794,7 +804,7 @@ def check(pid, tier, seed):
                 violations.append('VIOLATION property=%s replay=%s' % (pid, path))
                 break
     # 1d. generations never fall below what a storage already issued (C08; C19 for the configurations without wrapping_version)
-    if pid in ('C08', 'C19') and not violations:
+    if pid in ('C08', 'C09', 'C19') and not violations:
         for r in all_results:
             c = r['case']
             hit = generation_floor_oracle(c, CONFIGS[c['config']]['cfg']['wrapping'])
